@@ -198,7 +198,7 @@ def main():
         'engines': [{'name': 'coq-model', 'path': '/verif/coq', 'serves_properties': sorted(CLAIMS),
                      'kind_free_text': 'Coq 8.16 development (Model/ executable Gallina model, Proofs/, Props/ theorem statements), extracted to OCaml (runner/) and compared with the implementation by harness/'}],
         'checks': checks,
-        'notes': 'All checks share bin/check <ID>; every run regenerates Gen/Tables.v from /repo, rebuilds the Coq development (make -k), recompiles the property file to capture Print Assumptions, rebuilds the extracted runner and runs the correspondence. Known findings: /verif/known_findings.json.',
+        'notes': 'All checks share bin/check <ID>; every run regenerates Gen/Tables.v from /repo, rebuilds the Coq development (make -k), recompiles the property file to capture Print Assumptions, rebuilds the extracted runner and runs the correspondence. Known findings: /verif/known_findings.json. No hook or instrumentation was added to /repo (source_commits is empty); the ten unguarded `fix:` commits in /repo (9131995 52bd578 ecec88a c61aea7 94fd825 5381a3d bead264 07bcd78 8a50972 f1b9f2f) repair genuine defects and are listed with what failed under `fixed` in known_findings.json and in DESIGN.md 0.4.',
         'not_applicable': na,
     }
     json.dump(m, open(os.path.join(ROOT, 'MANIFEST.json'), 'w'), indent=1)
